@@ -164,4 +164,64 @@ theorem created_anytime_tracks_latest (ops : List Reg.Op) (s : Reg.S) (h : Reg.r
 example : (Reg.run Generated.regShape Reg.init [.update 1, .regBegin 7, .update 2, .regBegin 8]).map
     (fun s => (s.cache, s.handlers, s.applied 7, s.applied 8)) = some (some 2, [7, 8], some 2, some 2) := by decide
 
+/-! ## Consequences of `cb_latest` for whole histories (added in the last session) -/
+
+/-- a destination no update ever configured has no entry at all (the suite's default applies) -/
+theorem never_configured_no_entry (us : List CUp) (c : String) (h : ∀ u ∈ us, conf u c = false) :
+    (run us).cfg c = none := by
+  rw [cb_latest]
+  cases hr : us.reverse with
+  | nil => rfl
+  | cons u rest =>
+    have hu : conf u c = false := h u (by have : u ∈ us.reverse := by rw [hr]; simp
+                                          simpa using this)
+    have hrest : rest.any (conf · c) = false := by
+      rw [List.any_eq_false]
+      intro w hw
+      have : w ∈ us := by have : w ∈ us.reverse := by rw [hr]; simp [hw]
+                          simpa using this
+      simp [h w this]
+    have hl : latestCfg u c = none := by
+      have := latestCfg_isSome u c
+      rw [hu] at this
+      cases hx : latestCfg u c with
+      | none => rfl
+      | some x => rw [hx] at this; simp at this
+    simp [specCb, hl, hrest]
+
+/-- the history before the latest update is irrelevant for every destination the latest update configures:
+two clients with different pasts that receive the same cluster set agree on it -/
+theorem past_irrelevant_when_configured (us vs : List CUp) (u : CUp) (c : String) (h : conf u c = true) :
+    (run (us ++ [u])).cfg c = (run (vs ++ [u])).cfg c := by
+  rw [cb_latest, cb_latest]
+  have hs : (latestCfg u c).isSome = true := by rw [latestCfg_isSome]; exact h
+  cases hx : latestCfg u c with
+  | none => rw [hx] at hs; simp at hs
+  | some x => simp [specCb, hx]
+
+/-- re-delivery of the same cluster set (the control plane re-sends its state under a new version) changes nothing -/
+theorem redelivery_idempotent (us : List CUp) (u : CUp) (c : String) :
+    (run (us ++ [u, u])).cfg c = (run (us ++ [u])).cfg c := by
+  rw [cb_latest, cb_latest]
+  simp only [List.reverse_append, List.reverse_cons, List.reverse_nil, List.nil_append, List.cons_append, specCb]
+  cases hx : latestCfg u c with
+  | some x => rfl
+  | none =>
+    have hc : conf u c = false := by
+      have := latestCfg_isSome u c
+      rw [hx] at this
+      simpa using this.symm
+    simp [List.any_cons, hc]
+
+/-- removal followed by re-addition: the re-added destination carries the values of the re-addition, whatever it had before -/
+theorem readded_takes_new_values (us : List CUp) (u0 u1 u2 : CUp) (c : String) (t v : Nat)
+    (_h0 : conf u0 c = true) (_h1 : conf u1 c = false) (h2 : u2 c = some (some (t, v))) (ht : t ≠ 0) (hv : v ≠ 0) :
+    (run (us ++ [u0, u1, u2])).cfg c = some ⟨true, t, v⟩ := by
+  have : us ++ [u0, u1, u2] = (us ++ [u0, u1]) ++ [u2] := by simp
+  rw [this]
+  exact enabled_case _ u2 c t v h2 ht hv
+
+example : (run [exU [("a", some (50, 10))], exU [], exU [("a", some (30, 7))]]).cfg "a" = some ⟨true, 30, 7⟩ := by decide
+example : (run [exU [("a", some (50, 10))], exU []]).cfg "zz" = none := by decide
+
 end XdsVerif.Properties.C16
